@@ -1,9 +1,8 @@
 (* C01 -- Encode then decode returns the messages that were written.
    Status: the byte-level encoder (Model/Encoder.v) and decoder (Model/Decoder.v) are tied to the implementation by
    differential execution on every run; the theorems below are the parts of the round trip proved so far on those models
-   (value level: Props/C06.v; accumulated size/CRC: Props/C02.v), the refutation of the full statement for compressed
-   timestamps that go back inside the 32 s window (known finding ts_goes_back_within_window), and executable
-   instances.  The full statement, kept visible:
+   (value level: Props/C06.v; accumulated size/CRC: Props/C02.v; compressed timestamps for every message sequence), and
+   executable instances.  The full statement, kept visible:
 
      forall c f r, wf_input f -> encode_fit c f = Ok r ->
        decode_stream (mkcfg true false 4096) (er_bytes r) = Ok [fit with messages = expected c (er_msgs r)]
@@ -11,7 +10,7 @@
    where [expected] moves the timestamp of a compressed message to the front and applies C06's string normalisation. *)
 From Coq Require Import NArith List Bool.
 Import ListNotations.
-From Fit Require Import Model.Encoder Proofs.ValueProofs.
+From Fit Require Import Model.Encoder Proofs.ValueProofs Proofs.TimestampProofs.
 Open Scope N_scope.
 
 Definition rec (ts hr : N) : message :=
@@ -35,19 +34,21 @@ Theorem C01_field_value_array : forall big t l bt pt m, forallb (elt_ok t) l = t
 Proof. exact roundtrip_array. Qed.
 Print Assumptions C01_field_value_array.
 
-(* the full statement is FALSE of the faithful model: timestamps [t, t+10, t+5, t+6] compressed into record headers
-   decode as [t, t+10, t+37, t+38] -- the encoder's reference only moves on roll-over, the decoder's clock follows every timestamp *)
-Theorem C01_timestamp_refuted : exists c f r,
-  encode_fit c f = Ok r /\ timestamps (er_msgs r) = [t0; t0 + 10; t0 + 5; t0 + 6]
-  /\ decoded_timestamps (decode_stream (mkcfg true false 4096) (er_bytes r)) = [t0; t0 + 10; t0 + 37; t0 + 38].
-Proof.
-  exists cfg_compressed, back_file.
-  destruct (encode_fit cfg_compressed back_file) as [r| | |] eqn:E; [|vm_compute in E; discriminate E ..].
-  exists r. split; [reflexivity|].
-  assert (Hr : Ok r = encode_fit cfg_compressed back_file) by (symmetry; exact E).
-  vm_compute in Hr. injection Hr as ->. split; vm_compute; reflexivity.
-Qed.
-Print Assumptions C01_timestamp_refuted.
+(* compressed timestamps: for EVERY sequence of messages (with or without a uint32 timestamp field; wrap-around, invalid and
+   pre-DateTimeMin values included) the decoder's clock reconstructs exactly the timestamps the encoder compressed or wrote.
+   Rests on the translated fact that the encoder tracks the last written timestamp (fix: 0d6e112); on the pinned tree the
+   flag is false, this obligation fails and [t, t+10, t+5, t+6] decodes as [t, t+10, t+37, t+38]. *)
+Theorem C01_timestamps : forall ms, Forall ts_ok ms -> run_dec (0, 0) (run_enc 0 0 ms) = map ts_field_u32 ms.
+Proof. apply timestamps_roundtrip_init. reflexivity. Qed.
+Print Assumptions C01_timestamps.
+
+(* the former witness of the violation now round-trips *)
+Example C01_back_in_window_instance :
+  match encode_fit cfg_compressed back_file with
+  | Ok r => decoded_timestamps (decode_stream (mkcfg true false 4096) (er_bytes r)) = [t0; t0 + 10; t0 + 5; t0 + 6]
+  | _ => False
+  end.
+Proof. vm_compute. reflexivity. Qed.
 
 (* executable instance: non-decreasing timestamps inside and across the window come back exactly *)
 Example C01_monotone_instance :
